@@ -15,3 +15,30 @@ package types
 //@   loop 1 invariant l <= len(f.Bytes)
 //@ func (*types.Authenticator).GenerateSeqNumberAndSubKey(a, keyType, keySize) (err)
 //@   requires keySize >= 0 && keySize <= 1024
+
+// RFC 4120 6.2: principal names are equal when they have the same components (the name type is not significant).
+//@ define names_equal(a, b) := len(a.NameString) == len(b.NameString) && (forall c int :: 0 <= c && c < len(a.NameString) ==> a.NameString[c] == b.NameString[c])
+//@ func (types.PrincipalName).Equal(pn, n) (r)
+//@   pure
+//@   ensures r <==> names_equal(pn, n)
+//@   loop 1 invariant -1 <= rangeindex && rangeindex < len(pn.NameString)
+//@   loop 1 invariant forall c int :: 0 <= c && c <= rangeindex ==> n.NameString[c] == pn.NameString[c]
+
+//@ define addr_equal(x, a) := x.AddrType == a.AddrType && bytes(x.Address) == bytes(a.Address)
+//@ define addr_in(h, a) := exists i int :: 0 <= i && i < len(h) && addr_equal(h[i], a)
+//@ func (*types.HostAddress).Equal(h, a) (r)
+//@   pure
+//@   ensures r <==> addr_equal(*h, a)
+//@ func types.HostAddressesContains(h, a) (r)
+//@   pure
+//@   ensures r ==> addr_in(h, a)
+//@   ensures !r ==> forall i int :: 0 <= i && i < len(h) ==> !addr_equal(h[i], a)
+//@   loop 1 invariant -1 <= rangeindex && rangeindex < len(h)
+//@   loop 1 invariant forall i int :: 0 <= i && i <= rangeindex ==> !addr_equal(h[i], a)
+
+// RFC 4120 5.2.8: flag i is bit i of the bit string (bit 0 is the most significant bit of the first octet)
+//@ define flagset(f, i) := i / 8 < len(f.Bytes) && f.Bytes[i / 8] & (byte(1) << uint(7 - i % 8)) != 0
+//@ func types.IsFlagSet(f, i) (r)
+//@   pure
+//@   requires i >= 0
+//@   ensures r <==> flagset(*f, i)
